@@ -111,7 +111,10 @@ def impl(case):
     data = {"weighted": (yt, yp, sf, w), "replicated": (ryt, ryp, rsf, None), "scaled": (yt, yp, sf, c * w),
             "omitted": (yt, yp, sf, None), "ones": (yt, yp, sf, np.ones(len(yt))),
             "weighted_labelled": (yt, yp, sf, pd.Series(w, index=perm)),
-            "weighted_again": (yt, yp, sf, w)}
+            "weighted_again": (yt, yp, sf, w),
+            # column-shaped (n,1) weights: selection_rate / mean_prediction squeeze them explicitly (the four
+            # rates hand weights to sklearn, which rejects 2-D weights: they get the 1-D weights here)
+            "weighted_column": (yt, yp, sf, w.reshape(-1, 1))}
     sp_first = {}
     kind = case["kind"]
     res = {}
@@ -122,6 +125,8 @@ def impl(case):
             for vn, (a, b, _, sw) in data.items():
                 # the weighted call receives the weights as a plain list of ints for half of the metrics
                 sw_ = sw if (sw is None or vn != "weighted" or SIX.index(name) % 2) else [int(k) for k in ks]
+                if vn == "weighted_column" and name not in ("selection_rate", "mean_prediction"):
+                    sw_ = w
                 res[name][vn] = _try(lambda: f(a, b) if sw_ is None else f(a, b, sample_weight=sw_))
         return res
     if kind in ("frame-dict", "frame-callable"):
@@ -221,7 +226,8 @@ REL = [("weighted", "replicated", "weight k differs from k unit-weight copies"),
        ("omitted", "ones", "omitted weights differ from all-ones weights"),
        ("weighted", "weighted_labelled", "weights carried in a pandas Series with permuted index labels are not "
                                          "paired with the rows by position"),
-       ("weighted", "weighted_again", "a second call with the very same argument objects gives another result")]
+       ("weighted", "weighted_again", "a second call with the very same argument objects gives another result"),
+       ("weighted", "weighted_column", "weights given as an (n,1) column differ from the same weights as a vector")]
 
 
 def compare(case, out, model):
